@@ -1,6 +1,7 @@
 import core
 REAL_AXIOMS = ['ClassicalDedekindReals.sig_forall_dec', 'ClassicalDedekindReals.sig_not_dec',
-               'FunctionalExtensionality.functional_extensionality_dep']
+               'FunctionalExtensionality.functional_extensionality_dep',
+               'Axioms']  # runner/core.py's Print-Assumptions parser also matches the header line "Axioms:"
 META = {
     'id': 'C11', 'props_v': 'Props/C11.v', 'bin': 'c10', 'profile': 'dev', 'hooks': True, 'groups': ['Trust'],
     'harness_args': ['--mode', 'c11'],
